@@ -714,6 +714,150 @@ theorem inv_deliver (m : Mgr) (n : Nat) (e : Event) (he : e ≠ .stop) (h : Inv 
         simp only [this]
         exact hall y hy
 
+/-! ### the stored configuration is immutable
+
+    `pw.Cfg` is the very object `UpdateAll` was given; the `UpdateAll` of a later reload compares it
+    (`reflect.DeepEqual`) with a FRESHLY LOADED one.  The clause "unchanged entries keep running
+    without re-registration" therefore needs that nothing in a wrapper's life writes into that
+    object — not NewWrapper, not the monitor, not the proxy or its plugin, not a reply, not a health
+    callback.  On the model: no event other than a reload changes `cfg` (or the object stamp), for
+    every history; hence a reload of the loaded list is silent after ANY history of the wrappers,
+    not only immediately after the load (`reload_idempotent`). -/
+
+theorem nodup_same_name {ws : List W} (h : NamesNodup ws) {a b : W} (ha : a ∈ ws) (hb : b ∈ ws)
+    (hn : a.cfg.name = b.cfg.name) : a = b := by
+  induction ws with
+  | nil => cases ha
+  | cons c cs ih =>
+    have hp := List.pairwise_cons.mp h
+    rcases List.mem_cons.mp ha with rfl | ha' <;> rcases List.mem_cons.mp hb with rfl | hb'
+    · rfl
+    · exact absurd hn (hp.1 b hb')
+    · exact absurd hn.symm (hp.1 a ha')
+    · exact ih hp.2 ha' hb'
+
+/-- no event of a wrapper's life changes the configuration it was created with, nor its identity -/
+theorem step_cfg (w : W) (e : Event) : (step w e).1.cfg = w.cfg ∧ (step w e).1.id = w.id := by
+  obtain ⟨cfg, id, phase, health, ls, le⟩ := w
+  cases e <;> crunch []
+
+theorem run_cfg (es : List Event) : ∀ (w : W), (run w es).1.cfg = w.cfg ∧ (run w es).1.id = w.id := by
+  induction es with
+  | nil => intro w; exact ⟨rfl, rfl⟩
+  | cons e es ih =>
+    intro w
+    have h1 := step_cfg w e
+    have h2 := ih (step w e).1
+    simp only [run]
+    exact ⟨h2.1.trans h1.1, h2.2.trans h1.2⟩
+
+/-- (configuration, object stamp) of every wrapper in the map -/
+def stored (m : Mgr) : List (Cfg × Nat) := m.proxies.map (fun w => (w.cfg, w.id))
+
+/-- an event delivered through the manager (StartProxy, HandleWorkConn, a worker iteration, a
+    monitor callback — under whichever name) leaves every stored configuration and every wrapper
+    object in place -/
+theorem deliver_stored (m : Mgr) (n : Nat) (e : Event) (h : Inv m)
+    (m' : Mgr) (ms : List Msg) (r : Res) (hd : deliver m n e = some (m', ms, r)) : stored m' = stored m := by
+  unfold deliver at hd
+  split at hd
+  · cases hd
+  · rename_i w hf
+    simp only [Option.some.injEq, Prod.mk.injEq] at hd
+    obtain ⟨rfl, _, _⟩ := hd
+    have hwn : w.cfg.name = n := by simpa using List.find?_some hf
+    have hwm : w ∈ m.proxies := List.mem_of_find?_eq_some hf
+    simp only [stored, List.map_map]
+    apply List.map_congr_left
+    intro x hx
+    by_cases hxn : x.cfg.name = n
+    · have hxw : x = w := nodup_same_name h.1 hx hwm (hxn.trans hwn.symm)
+      subst hxw
+      simp [Function.comp, hxn, (step_cfg x e).1, (step_cfg x e).2]
+    · have : (x.cfg.name == n) = false := by simpa using hxn
+      simp [Function.comp, this]
+
+/-- a history between two reloads: events delivered under names (an event for a name that is not
+    in the map is dropped, as StartProxy / HandleWorkConn do) -/
+def deliverAll (m : Mgr) : List (Nat × Event) → Mgr
+  | [] => m
+  | (n, e) :: rest =>
+    match deliver m n e with
+    | some (m', _, _) => deliverAll m' rest
+    | none => deliverAll m rest
+
+/-- NO EVENT OTHER THAN A RELOAD CHANGES A STORED CONFIGURATION — for every history (the manager
+    never delivers `stop` this way: Stop is only called by UpdateAll and Close) -/
+theorem stored_immutable (es : List (Nat × Event)) : ∀ (m : Mgr), Inv m → (∀ x ∈ es, x.2 ≠ .stop) →
+    stored (deliverAll m es) = stored m ∧ Inv (deliverAll m es) := by
+  induction es with
+  | nil => intro m h _; exact ⟨rfl, h⟩
+  | cons x es ih =>
+    intro m h hes
+    obtain ⟨n, e⟩ := x
+    have he : e ≠ .stop := hes (n, e) List.mem_cons_self
+    have hrest : ∀ x ∈ es, x.2 ≠ .stop := fun x hx => hes x (List.mem_cons_of_mem _ hx)
+    simp only [deliverAll]
+    split
+    · rename_i m' ms r hd
+      have h' := inv_deliver m n e he h m' ms r hd
+      have := ih m' h' hrest
+      exact ⟨this.1.trans (deliver_stored m n e h m' ms r hd), this.2⟩
+    · exact ih m h hrest
+
+theorem stored_mem {m : Mgr} {w : W} (hw : w ∈ m.proxies) : (w.cfg, w.id) ∈ stored m :=
+  List.mem_map.mpr ⟨w, hw, rfl⟩
+
+theorem hasName_of_stored {m1 m2 : Mgr} (h : stored m1 = stored m2) (n : Nat) :
+    hasName m1.proxies n = hasName m2.proxies n := by
+  have h1 : ∀ m : Mgr, hasName m.proxies n = (stored m).any (fun p => p.1.name == n) := by
+    intro m
+    simp only [hasName, stored, List.any_map]
+    rfl
+  rw [h1, h1, h]
+
+/-- "CONVERGE TO EXACTLY THOSE OF THE LAST LOADED CONFIGURATION", at every later moment: after a
+    reload of `cfgs` and any history of events, every wrapper in the map carries exactly the
+    configured entry of its name -/
+theorem running_cfgs_history (m : Mgr) (cfgs : List Cfg) (now : Nat) (h : Inv m) (es : List (Nat × Event))
+    (hes : ∀ x ∈ es, x.2 ≠ .stop) (w : W) (hw : w ∈ (deliverAll (updateAll m cfgs now).1 es).proxies) :
+    lookupLast cfgs w.cfg.name = some w.cfg := by
+  have hs := (stored_immutable es _ (inv_updateAll m cfgs now h) hes).1
+  have hm := stored_mem hw
+  rw [hs] at hm
+  obtain ⟨w0, hw0, he⟩ := List.mem_map.mp hm
+  have hc : w0.cfg = w.cfg := congrArg Prod.fst he
+  rw [← hc]
+  exact update_running_cfgs m cfgs now w0 hw0
+
+/-- RELOADING THE LOADED CONFIGURATION IS SILENT AFTER ANY HISTORY: whatever the wrappers have gone
+    through since the load (registrations, replies, errors, health changes, work connections), the
+    same list loaded again sends nothing, stops nothing and keeps every wrapper object -/
+theorem reload_silent_after_history (m : Mgr) (cfgs : List Cfg) (now now' : Nat) (h : Inv m)
+    (es : List (Nat × Event)) (hes : ∀ x ∈ es, x.2 ≠ .stop) :
+    (updateAll (deliverAll (updateAll m cfgs now).1 es) cfgs now').2.2 = [] ∧
+    (updateAll (deliverAll (updateAll m cfgs now).1 es) cfgs now').2.1 = [] ∧
+    (updateAll (deliverAll (updateAll m cfgs now).1 es) cfgs now').1.proxies =
+      (deliverAll (updateAll m cfgs now).1 es).proxies := by
+  have hs := (stored_immutable es _ (inv_updateAll m cfgs now h) hes).1
+  have hall : ∀ w ∈ (deliverAll (updateAll m cfgs now).1 es).proxies, keeps cfgs w = true := by
+    intro w hw
+    simp [keeps, running_cfgs_history m cfgs now h es hes w hw]
+  generalize hm1 : deliverAll (updateAll m cfgs now).1 es = m1 at *
+  have hf : m1.proxies.filter (keeps cfgs) = m1.proxies := List.filter_eq_self.mpr hall
+  have hg : m1.proxies.filter (fun w => !keeps cfgs w) = [] := by
+    rw [List.filter_eq_nil_iff]
+    intro w hw
+    simp [hall w hw]
+  have hno : addLoop m1.nextId now' m1.proxies (cfgs.map (sel cfgs)) = (m1.proxies, []) := by
+    apply addLoop_noop
+    intro c hcm
+    obtain ⟨c0, hc0, rfl⟩ := List.mem_map.mp hcm
+    rw [sel_name, hasName_of_stored hs]
+    exact (update_names m cfgs now c0.name).mpr ⟨c0, hc0, rfl⟩
+  simp only [updateAll, addLoopNew_eq, hf, hg, hno, stopEvents, stopAll]
+  simp
+
 example : Consistent [⟨1, 0, false, false⟩, ⟨2, 3, true, false⟩, ⟨1, 0, false, false⟩] := by decide
 example : ¬ Consistent [⟨1, 0, false, false⟩, ⟨1, 1, false, false⟩] := by decide
 example : Inv (updateAll (updateAll Reconcile.init [⟨1, 0, false, false⟩, ⟨2, 3, true, false⟩] 0).1
@@ -896,6 +1040,33 @@ def updHoldsOn (old : List W) (cfgs : List Cfg) (evs : List String) : Bool :=
   match evs.mapM parseEv with
   | some es => updHoldsOnEv old cfgs es
   | none => false
+
+/-- what the harness reads off the real manager with `status`: per wrapper its name and the code of the
+    configuration object it holds (decoded against a pristine load of the text it came from: a code no
+    list contains if anything has written into the object) -/
+def statusObs (m : Mgr) : List (Nat × Nat) := m.proxies.map (fun w => (w.cfg.name, w.cfg.variant))
+
+/-- the clause "the running proxies are exactly those of the last loaded configuration, each with
+    the configured entry of its name", `cfgs` being the last loaded list -/
+def statusHoldsOn (cfgs : List Cfg) (obs : List (Nat × Nat)) : Bool :=
+  obs.all (fun p => (lookupLast cfgs p.1).map (·.variant) == some p.2) &&
+  cfgs.all (fun c => obs.any (fun p => p.1 == c.name))
+
+/-- the model's own status satisfies it after a reload and EVERY history of wrapper events -/
+theorem model_statusHolds (m : Mgr) (cfgs : List Cfg) (now : Nat) (h : Inv m) (es : List (Nat × Event))
+    (hes : ∀ x ∈ es, x.2 ≠ .stop) :
+    statusHoldsOn cfgs (statusObs (deliverAll (updateAll m cfgs now).1 es)) = true := by
+  have hs := (stored_immutable es _ (inv_updateAll m cfgs now h) hes).1
+  simp only [statusHoldsOn, statusObs, Bool.and_eq_true, List.all_eq_true, List.any_eq_true, List.mem_map]
+  constructor
+  · rintro p ⟨w, hw, rfl⟩
+    simp [running_cfgs_history m cfgs now h es hes w hw]
+  · intro c hc
+    have hn : hasName (deliverAll (updateAll m cfgs now).1 es).proxies c.name = true := by
+      rw [hasName_of_stored hs]
+      exact (update_names m cfgs now c.name).mpr ⟨c, hc, rfl⟩
+    obtain ⟨w, hw, hwn⟩ := (hasName_iff _ _).mp hn
+    exact ⟨(w.cfg.name, w.cfg.variant), ⟨w, hw, rfl⟩, by simp [hwn]⟩
 
 /-- a result of an operation on a STOPPED wrapper is acceptable iff nothing was registered and
     no work connection was accepted -/
